@@ -363,7 +363,13 @@ def run_property(prop, tier, seed, update_baseline=False):
         n_ob += eff["obligations"]
         discharged += eff["discharged"]
         by_solver["effects (static frame inference)"] = eff["discharged"]
-    level = "proof" if n_ob and discharged == n_ob and not undecided else "other"
+    claimed = "proof"
+    try:
+        with open(os.path.join(VERIF, "props", "claims.json"), encoding="utf-8") as f:
+            claimed = json.load(f).get(prop, {}).get("category", "proof")
+    except OSError:
+        pass
+    level = claimed if (claimed != "proof" or (n_ob and discharged == n_ob and not undecided)) else "other"
     cov = {
         "obligations": n_ob,
         "discharged": discharged,
